@@ -112,6 +112,11 @@ def run(ck):
             seqs.append(w)
         if rng.chance(1, 3): seqs.append(D)
         dlines.append('dmat ' + ' '.join(gen.hexs(x) for x in seqs))
+    # large distances: unrelated sequences (several hundred edits; the distance is an int, not a byte)
+    for k in range(6 if quick else 40):
+        la = rng.choice([300, 520, 700, 1000]); lb = rng.choice([260, 300, 520, 900])
+        dlines.append('dmat ' + ' '.join(gen.hexs(x) for x in [gen.rand_seq(rng, 'ACGT', la), gen.rand_seq(rng, 'ACGT', lb), gen.rand_seq(rng, 'AC', lb)]))
+        ck.count('distance matrix: unrelated sequences (distance > 255)')
     # the length term MIN(10000, (l1+l2)/2)/10000: both sides of its cap (one duplicate pair and a short near-fragment each)
     for (la, lb) in ([(19900, 30), (19990, 30), (22000, 40)] if quick else [(19900, 30), (19970, 30), (19990, 30), (22000, 40), (30000, 700), (10001, 10003)]):
         D = gen.rand_seq(rng, 'ACGT', la)
